@@ -164,18 +164,18 @@ prop("C09", [rh.r_hdr_layout, rh.r_hdr_io, rh.r_hdr_reject, rh.r_round],
      ["R-HDR-LAYOUT", "R-HDR-IO", "R-HDR-REJECT", "R-ROUND"],
      ["deku's generated code", "the exhaustive 2^32 coordinate claim (implied by R-ROUND and an error bound, not enumerated)"])
 
-prop("C10", [st.r_hashid, st.r_hashfn, st.r_finish_pair, st.r_rle_dep, st.r_remove_guard, st.r_add_pair, rr.r_exact_tile, st.r_order, st.r_lookup, rd.r_cols_writer, rd.r_cols_reader],
+prop("C10", [st.r_hashid, st.r_hashfn, st.r_finish_pair, st.r_rle_dep, st.r_remove_guard, st.r_add_pair, rr.r_exact_tile, st.r_order, st.r_lookup, rd.r_cols_writer, rd.r_cols_reader, rw.r_layout_w],
      "Layout: bytes are appended exactly on the dedup miss, once, with the offset read before the append and the length of the appended content; a hit reuses the "
      "stored pair; reader-backed tiles are hashed with the same function; a run is extended only for the adjacent id with an equal offset, by one; in memory, bytes "
      "are dropped only when the last id goes away. R-HASHID (identity by bytes) is a known finding.",
-     ["R-FINISH-PAIR", "R-COUNTERS", "R-RLE-DEP", "R-REMOVE-GUARD", "R-ADD-PAIR", "R-HASHID"],
+     ["R-FINISH-PAIR", "R-COUNTERS", "R-RLE-DEP", "R-REMOVE-GUARD", "R-ADD-PAIR", "R-HASHID", "R-LAYOUT-W (the declared tile-data length is the length of the laid-out contents, wherever the archive starts)"],
      [RUNTIME, "minimality over all duplication patterns", "retention over edit histories"])
 
-prop("C11", [tt.r_range_end, tt.r_leaf_skip_and_filter, tt.r_filter_complete, tt.r_partial_same, rr.r_walk, tt.r_walk_complete, rr.r_addr_open, rd.r_cols_reader, rr.r_bounded_read],
+prop("C11", [tt.r_range_end, tt.r_leaf_skip_and_filter, tt.r_filter_complete, tt.r_partial_same, rr.r_walk, tt.r_walk_complete, rr.r_addr_open, rd.r_cols_reader, rr.r_bounded_read, rs.r_leafptr_first_id],
      "The inclusive range end is computed without unchecked arithmetic for all three bound kinds; every map insert in the walker is dominated by "
      "filter_range.contains(&id) for the inserted id and the filter is forwarded unchanged; a leaf is skipped only on `first id > inclusive end` (strict, unbounded ⇒ "
      "never, independent of the start bound); full and partial opens are one implementation differing only in the range argument.",
-     ["R-RANGE-END", "R-FILTER-GUARD", "R-LEAF-SKIP", "R-PARTIAL-SAME"],
+     ["R-RANGE-END", "R-FILTER-GUARD", "R-LEAF-SKIP", "R-PARTIAL-SAME", "R-LEAFPTR (first-id clause only: the pointers of library-written archives carry the id the leaf skip compares)"],
      [RUNTIME])
 
 prop("C12", [rt.r_twin, rt.r_factory, rd.r_dir_twins, rr.r_seek_after_codec, rt.r_finalise_async, tt.r_depth_twins],
@@ -205,11 +205,11 @@ prop("C15", [rt.r_result_used, rt.r_finalise, rt.r_no_unwrap],
      ["R-RESULT-USED", "R-NO-UNWRAP", "R-FINALISE"],
      ["exhaustive fault points at run time", "completeness of library error paths"])
 
-prop("C16", [st.r_order, st.r_hash_noleak, rc.r_cfg_jsonorder, rh.r_round, st.r_finish_pair, st.r_add_pair, st.r_remove_guard, st.r_rle_dep, rw.r_layout_w, rs.r_leafptr, rd.r_cols_writer, st.r_clustered, rd.r_cols_reader],
+prop("C16", [st.r_order, st.r_hash_noleak, rc.r_cfg_jsonorder, rh.r_round, st.r_finish_pair, st.r_add_pair, st.r_remove_guard, st.r_rle_dep, rw.r_layout_w, rs.r_leafptr, rd.r_cols_writer, st.r_clustered, rd.r_cols_reader, rr.r_fieldmap_r, rw.r_fieldmap_w],
      "Sources of non-canonical output are closed structurally: the only hash-ordered iteration on the write path is sorted ascending by tile id before layout; content "
      "hashes are used only as map keys; serde_json is resolved without preserve_order and ahash with fixed keys; stored coordinates survive decode→encode (R-ROUND); "
      "in-memory and reader-backed tiles take the same layout path.",
-     ["R-ORDER", "R-HASH-NOLEAK", "R-CFG-JSONORDER", "R-ROUND", "R-FINISH-PAIR"],
+     ["R-ORDER", "R-HASH-NOLEAK", "R-CFG-JSONORDER", "R-ROUND", "R-FINISH-PAIR", "R-FIELDMAP (a setting read back is the setting stored, and is written from the same field: read→write reproduces the header)"],
      [RUNTIME, "determinism of the codec libraries", "cross-process equality at run time"])
 
 prop("C17", [rw.r_commit_order, rh.r_hdr_io, rh.r_hdr_reject],
@@ -232,11 +232,11 @@ prop("C19", [st.r_rej_empty, rd.r_len0_err, rd.r_cols_reader, rd.r_cols_writer, 
      ["R-REJ-EMPTY", "R-LEN0", "R-REJ-META", "R-REJ-UNKNOWN", "R-CODEC-ALWAYS"],
      ["'leaves the archive unchanged' beyond 'no mutation before the guard'"])
 
-prop("C20", [rr.r_lazy, rr.r_bounded_read, rr.r_exact_tile, rh.r_hdr_io, rr.r_walk, tt.r_walk_complete, rr.r_meta0, rr.r_addr_open, rr.r_seek_after_codec],
+prop("C20", [rr.r_lazy, rr.r_bounded_read, rr.r_exact_tile, rh.r_hdr_io, rr.r_walk, tt.r_walk_complete, rr.r_meta0, rr.r_addr_open, rr.r_seek_after_codec, rd.r_cols_reader],
      "Call-graph and read-summary analysis: no function that fetches tile bytes is reachable from the opener; registering a tile has no stream effect; every read on "
      "the open path is the fixed 127-byte header read or goes through take(len) after seek(Start(off)) with (off,len) a header-declared section or the walker's leaf "
      "pair; a lookup seeks to the stored offset and performs exactly one read_exact of the stored length.",
-     ["R-LAZY", "R-BOUNDED-READ", "R-EXACT-TILE", "R-HDR-IO"],
+     ["R-LAZY", "R-BOUNDED-READ", "R-EXACT-TILE", "R-HDR-IO", "R-COLS/R-OFFRULE (decoder): the byte range a lookup reads is the one the directory encodes"],
      ["read-ahead inside decoders (bounded by take)", "byte ranges at run time"])
 
 
